@@ -644,7 +644,7 @@ class BitwiseAndByZero(RewritePattern):
             rewriter.replace(op, riscv.MVOp(op.rs1, rd=rd))
 
         # check if the second operand is 0
-        if (rs2 := get_constant_value(op.rs2)) is not None and rs2.value.data == 0:
+        elif (rs2 := get_constant_value(op.rs2)) is not None and rs2.value.data == 0:
             # if the second operand is 0, set the destination to 0
             rd = op.rd.type
             rewriter.replace(op, riscv.MVOp(op.rs2, rd=rd))
@@ -719,7 +719,7 @@ class BitwiseXorByZero(RewritePattern):
             rd = op.rd.type
             rewriter.replace(op, riscv.MVOp(op.rs2, rd=rd))
 
-        if (rs2 := get_constant_value(op.rs2)) is not None and rs2.value.data == 0:
+        elif (rs2 := get_constant_value(op.rs2)) is not None and rs2.value.data == 0:
             rd = op.rd.type
             rewriter.replace(op, riscv.MVOp(op.rs1, rd=rd))
 
